@@ -80,7 +80,7 @@ pub fn gen(seed: u64, n: usize) -> Result<Vec<Value>> {
 	let mut out = vec![];
 	while out.len() < n {
 		let cfg = TreeCfg { classes: r.gen_range(0..12), p_missing: *pick(&mut r, &[0.0, 0.0, 0.1, 0.3]), root_doc: r.gen_bool(0.3),
-			unicode: r.gen_bool(0.3), ..TreeCfg::default() };
+			unicode: r.gen_bool(0.3), empty_doc: r.gen_bool(0.25), ..TreeCfg::default() };
 		let a = gen_tree(&mut r, &cfg);
 		let mut b = if r.gen_bool(0.1) { gen_tree(&mut r, &cfg) } else { a.clone() };
 		let unname = r.gen_bool(0.15);
